@@ -1,8 +1,8 @@
 package main
 
 import (
-	"math"
 	"context"
+	"math"
 	"math/rand"
 	"strings"
 
